@@ -9,6 +9,7 @@ import (
 	"verifharness/drv/c03"
 	"verifharness/drv/c05"
 	"verifharness/drv/c14"
+	"verifharness/drv/c18"
 	"verifharness/drv/c20"
 	execdrv "verifharness/drv/exec"
 	rxdrv "verifharness/drv/reactive"
@@ -18,6 +19,7 @@ var cmds = map[string]func([]string) error{
 	"c03": c03.Main,
 	"c05": c05.Main,
 	"c14": c14.Main,
+	"c18": c18.Main,
 	"c20": c20.Main,
 	"exec": execdrv.Main,
 	"reactive": rxdrv.Main,
